@@ -1,2 +1,4 @@
 import Mpd.Basic
 import Mpd.Tag
+import Mpd.Command
+import Mpd.AFrame
